@@ -35,6 +35,8 @@ pub struct Weights {
     pub solo_group: u32,
     /// bursts of application messages by one member
     pub burst: u32,
+    /// stored snapshots pruned behind a client's back (only where divergence is not judged)
+    pub vanish: u32,
 }
 
 impl Default for Weights {
@@ -65,6 +67,7 @@ impl Default for Weights {
             side: 0,
             solo_group: 0,
             burst: 0,
+            vanish: 0,
         }
     }
 }
@@ -85,6 +88,7 @@ pub fn data_change() -> impl Strategy<Value = DataChange> {
         2 => (0u8..4).prop_map(DataChange::RotateId),
         1 => (0u8..4).prop_map(DataChange::Image),
         1 => Just(DataChange::ClearImage),
+        2 => (1u8..16, 0u8..4).prop_map(|(part, n)| DataChange::ImagePart(part, n)),
         2 => any::<u16>().prop_map(DataChange::ToggleAdmin),
     ]
 }
@@ -223,6 +227,7 @@ pub fn op_strategy(w: &Weights) -> BoxedStrategy<Op> {
         ];
         v.push((w.side, so.prop_map(Op::Side).boxed()));
     }
+    v.push((w.vanish, any::<u16>().prop_map(|m| Op::SnapshotsVanish { m }).boxed()));
     v.push((w.burst, (any::<u16>(), 3u8..14).prop_map(|(m, n)| Op::Burst { m, n }).boxed()));
     v.push((w.solo_group, (any::<u16>(), any::<bool>()).prop_map(|(m, collide)| Op::SoloGroup { m, collide }).boxed()));
     let v: Vec<(u32, BoxedStrategy<Op>)> = v.into_iter().filter(|(w, _)| *w > 0).collect();
